@@ -135,7 +135,8 @@ static void l3_labels(long shard, void *arg) {
         check_domain("L3label", t, l); MC_ADD(C_L3, 1);
     }
     /* one hyphen at every position of the varied label */
-    if (len >= 1 && len <= 64 && (len <= 5 || len >= 60)) for (int h = 0; h < len; h++) {
+    /* (label lengths around the limit go to 70: a hyphen as 64th character of a longer label steps a counter over the limit) */
+    if (len >= 1 && (len <= 5 || len >= 58)) for (int h = 0; h < len; h++) {
         size_t l = 0;
         for (int i = 0; i < nl; i++) {
             if (i) t[l++] = '.';
@@ -169,6 +170,24 @@ static void l3_total(long shard, void *arg) {
     }
 }
 
+/* mode 6531: long U-label domains (UTF-8 byte length crosses 255 while the A-label form is within / beyond 253) */
+static void l3_ulabel(long shard, void *arg) {
+    (void)arg; int nl = (int)shard + 1;
+    for (int per = 8; per <= 56; per++) for (int three = 0; three < 2; three++) for (int root = 0; root < 2; root++) {
+        unsigned char big[1500]; size_t l = 0;
+        for (int k = 0; k < nl; k++) {
+            for (int i = 0; i < per; i++) {
+                if (three) { big[l++] = 0xe4; big[l++] = 0xb8; big[l++] = (unsigned char)(0x80 + (i * 7 + k) % 48); }
+                else { big[l++] = 0xd0; big[l++] = (unsigned char)(0xb0 + (i + k) % 16); }
+            }
+            big[l++] = '.';
+        }
+        memcpy(big + l, "\xd1\x80\xd1\x84", 4); l += 4;
+        if (root) big[l++] = '.';
+        if (l < 1000) { check_domain("L3ulabel", big, l); MC_ADD(C_L3, 1); }
+    }
+}
+
 static int do_replay(void) {
     mc_replay_t r; if (mc_load_replay(mc_replay, &r)) return 2;
     mc_replay_hit = 0;
@@ -187,6 +206,7 @@ int main(int argc, char **argv) {
     mc_parallel("L2: 25 bases x every position x 255 bytes (+ adjacent pairs)", NBASES, l2_shard, NULL);
     mc_parallel("L3: label length 0..70 x position x 1..5 labels (+hyphen positions)", 5L * 5 * 71, l3_labels, NULL);
     mc_parallel("L3: total length 235..262 x last label 1..63 x root dot", 28, l3_total, NULL);
+    mc_parallel("L3: U-label domains of 1..7 labels x 8..56 letters (2- and 3-byte) around the 253/255 limits", 7, l3_ulabel, NULL);
     int N = mc_thorough ? 9 : 7;
     memset(&L1E, 0, sizeof L1E);
     L1E.A = SIGC; L1E.nA = NSIGC; L1E.N = N; L1E.k = 3; L1E.fn = l1_cb;
